@@ -202,3 +202,38 @@ def literal_bodies(maxlen):
     for opener, alpha in fam:
         for body in all_strings(b(alpha), maxlen):
             yield b(opener) + body
+
+
+def long_sql_inputs(big):
+    """attacks and benign text behind / around long padding (white space, a long string literal, a long comment,
+    a long number, a long word): length-dependent behaviour"""
+    sizes = [1000, 5000, 20000] if big else [1000, 6000]
+    out = []
+    for n in sizes:
+        for payload in (("1 union select 1,2,3 -- ", "' or 1=1 -- ", "hello world", "1; drop table x", "x' and sleep(5) #") if big
+                        else ("1 union select 1,2,3 -- ", "x' and sleep(5) #")):
+            out.append(b(" " * n + payload))
+            out.append(b(payload + " " * n))
+            out.append(b("'" + "a" * n + "' " + payload))
+            out.append(b("/*" + "a" * n + "*/" + payload))
+            out.append(b("1" * n + " " + payload))
+            out.append(b("a" * n + " " + payload))
+            out.append(b(payload + "\n" * n + "union select 1"))
+    return out
+
+
+def long_html_inputs(big):
+    sizes = [1000, 5000, 20000] if big else [1000, 6000]
+    out = []
+    for n in sizes:
+        for payload in (("<script>alert(1)</script>", "<a href=javascript:alert(1)>", "plain text", "x' onerror=alert(1) y='", "<!-- x --><p>") if big
+                        else ("<script>alert(1)</script>", "x' onerror=alert(1) y='")):
+            out.append(b("x" * n + payload))
+            out.append(b(payload + "x" * n))
+            out.append(b("<a title='" + "y" * n + "'>" + payload))
+            out.append(b(" " * n + payload))
+    for n in (200, 1000):                 # many tokens / many candidate terminators: kept short for the model's sake
+        for payload in ("<script>alert(1)</script>", "x' onerror=alert(1) y='"):
+            out.append(b("<!--" + "-" * n + "-->" + payload))
+            out.append(b("<a " + "b " * (n // 2) + ">" + payload))
+    return out
